@@ -11,6 +11,42 @@ WHAT = {"P18-bank-card-not-bank": "a card whose first application entry carries 
         "P18-abort-not-error": "an abort other than the time-out was not reported as an error"}
 
 
+def ber(tag, body):
+    t = [tag >> 8, tag & 255] if tag > 255 else [tag]
+    n = len(body)
+    ln = [n] if n < 128 else ([0x81, n] if n < 256 else [0x82, n >> 8, n & 255])
+    return t + ln + list(body)
+
+
+def raw_status_shapes():
+    """Status informations assembled byte by byte: the application list and the UID as a terminal may really send them - entries with data
+    objects the library does not model (before or behind the application id), unknown elements around the list, the UID in front of or
+    behind the list.  What they decode to is the reference parser's business; the classification must follow it."""
+    aid = ber(0x43, [0xa0, 0, 0, 0, 4, 0x10, 0x10])
+    ctype = ber(0x41, [0x00, 0x05])
+    unk = [ber(0x44, [0x56, 0x49, 0x53, 0x41]), ber(0x1f99, [1]), ber(0x45, [])]
+    uid = ber(0x4c, [0x04, 0xa1, 0xb2, 0xc3])
+    entries = [aid, ctype + aid]
+    for u in unk:
+        entries += [aid + u, ctype + aid + u, u + aid, ctype + u]
+    shapes = []
+    for e in entries:
+        sub = ber(0x60, e)
+        for body in (sub, uid + sub, sub + uid, sub + ber(0x60, ctype), uid + unk[0] + sub, uid + sub + unk[1]):
+            shapes.append(body)
+    shapes += [uid + u for u in unk] + [u + uid for u in unk]
+    out = []
+    for k, body in enumerate(shapes):
+        bmp06 = [0x06] + ber(0, body)[1:]          # BMP 06: BER length, then the container
+        frame_body = [0x27, 0x00] + bmp06
+        n = len(frame_body)
+        frame = [0x04, 0x0f] + ([n] if n < 255 else [0xff, n & 255, n >> 8]) + frame_body
+        out.append({"calls": [{"op": "read_card"}], "term": {"chunk": [0, 0, 5, 1][k % 4]},
+                    "plan": {"exchanges": [], "scripts": {"ReadCard": [{"script": [[0x04, 0xff, 0x01, 0x0a]] * (k % 3) + [frame]}]},
+                             "default": {"o": "ok", "uid": [1, 2, 3, 4]}}})
+    return out
+
+
 def run(chk):
     wd = vlib.workdir("C18")
     thorough = chk.tier == "thorough"
@@ -26,11 +62,16 @@ def run(chk):
         rand.append({"calls": [{"op": "read_card"}], "plan": {"exchanges": [{"o": "status", "uid": uid if rnd.random() < 0.95 else None, "subs": subs,
                                                                               "inter": rnd.choice([0, 0, 1, 3])}]}})
     scripts = cl.script_walks(chk, binary, wd, chk.seed + 18, 2000 if thorough else 150)
-    out = cl.run_scenarios(binary, sc + rand + scripts, wd, "c18")
+    # the replies arrive in one piece or in segments of 1 / 7 / 64 bytes
+    for k, x in enumerate(sc):
+        x.setdefault("term", {})["chunk"] = [0, 0, 1, 7, 64][k % 5]
+    raw = raw_status_shapes()
+    out = cl.run_scenarios(binary, sc + rand + scripts + raw, wd, "c18")
     outs, ifl, pfl = cl.validate(chk, out, wd, "c18", shard=800)
     cl.report(chk, outs, ifl, pfl, {"P18", "abnormal"}, WHAT)
     chk.cov["traces_validated_against_impl"] = len(outs)
     chk.cov["reply_script_walks"] = len(scripts)
+    chk.cov["raw_status_shapes"] = len(raw)
     chk.cov["evaluations"] = len(outs)
     chk.cov["distinct_nontrivial"] = len(sc)
     chk.cov["rule"] = ("TLC generates status replies: UID of 0..20 bytes x 5 zero-prefix / case patterns x 6 application-list shapes x 0..3 leading "
